@@ -313,6 +313,8 @@ class ForceMatrix:
                 if np.any([x < 0 for x in xres[:-1]]) and not kwargs.get("allow_negatives", True):
                     raise ValueError("Negative values detected")
         except (ValueError, np.linalg.LinAlgError, TypeError) as e:
+            # lmfit switches numpy's floating-point error handling off and does not restore it when it aborts
+            np.seterr(all='raise')
             warnings.warn(f"Numerically solving due to the following error: {e}")
             xres, _ = scop.nnls(mprime, b, maxiter=kwargs.get("nnls_max_iter"))
             _verif_path = "nnls-fallback"
